@@ -19,6 +19,12 @@ with ThreadPoolExecutor(max_workers=8) as ex:
         lab = '/'.join(p.split('/')[-3:-1])
         if 'error' in r:
             print('%-24s PATCH ERROR %s' % (lab, r['error'][:100])); bad += 1; continue
+        mp = os.path.join(os.path.dirname(p), 'meta.json')
+        und = (json.load(open(mp)).get('undecided_ok') or {}) if os.path.exists(mp) else {}
+        for pid in list(r):
+            if r[pid]['exit'] == 2 and pid in und:
+                r[pid]['exit'] = 0
+                r[pid]['note'] = 'undecided (listed)'
         cells = ['%s:%d%s' % (pid, v['exit'], v['rules']) for pid, v in sorted(r.items()) if v['exit'] != 0]
         print('%-24s %s' % (lab, ' '.join(cells) or 'silent'))
         for pid, v in sorted(r.items()):
